@@ -194,7 +194,7 @@ func checkC08(p *Prog, r *Result, tier string) {
 	r.Technique = "field-coverage and mirrored-operator rules over the methods of resource/plugins/cpumem/types (type-checked AST), inverse-call rule over resource/cobalt, delta-shape rule in CalculateRealloc"
 	r.Explanation = "DC every DeepCopy of a cpumem bookkeeping type reads every field of its receiver, and a map/pointer/slice field is never placed into the copy as the receiver's own value (it is ranged over or copied by a call); " +
 		"MIR for every usage-relevant field (table in the evidence) Add updates it only with '+' and Sub only with '-', unconditionally (no update sits under an if, except the else-branch of Add's `if len(x.F) == 0 { x.F = y.F }`), in the struct types and in the two map types; " +
-		"RB every RollbackX of the resource manager calls SetNodeResourceUsage with the same argument shape as X (nil requests, delta mode) and the opposite direction; APPLY the plugin applies every workload resource (or delta) it is handed to the node usage: the loop in calculateNodeResource converts each element field by field (CPU<-CPURequest, CPUMap<-CPUMap, Memory<-MemoryRequest, NUMAMemory<-NUMAMemory) and adds or subtracts it unconditionally, direction chosen only by incr; DELTA CalculateRealloc publishes as delta a DeepCopy of the new resource from which the parsed origin was subtracted. " +
+		"RBP the manager's own rollback of a partly failed usage/capacity update fans out over exactly the plugins that answered; RB every RollbackX of the resource manager calls SetNodeResourceUsage with the same argument shape as X (nil requests, delta mode) and the opposite direction; APPLY the plugin applies every workload resource (or delta) it is handed to the node usage: the loop in calculateNodeResource converts each element field by field (CPU<-CPURequest, CPUMap<-CPUMap, Memory<-MemoryRequest, NUMAMemory<-NUMAMemory) and adds or subtracts it unconditionally, direction chosen only by incr; DELTA CalculateRealloc publishes as delta a DeepCopy of the new resource from which the parsed origin was subtracted. " +
 		"These are necessary for 'usage == sum of live workloads' and 'rollback restores usage exactly': a field missed by the copy or updated with the wrong sign makes the delta, and hence the usage, wrong for every history that touches it."
 	r.NotCovered = "the arithmetic over a whole history (values), rounding of CPU sums, aliasing through the heap (WorkloadResource.Add adopts the argument's NUMAMemory map when its own is empty: noted as an observation)"
 	r.Assumptions = []string{"usage-relevant field table (printed under tables) confirmed by reading calculateNodeResource", "A1 no reflection-based copying in these types (mapstructure is used only for Parse)"}
@@ -248,6 +248,37 @@ func checkC08(p *Prog, r *Result, tier string) {
 	}
 
 	checkMirror(p, r)
+	// RBP (T5 of C11 on the manager's usage sites): when a usage or capacity update fails in one plugin, the manager rolls
+	// back exactly the plugins that had answered — writing the "before" value of a plugin that never answered (nil) wipes
+	// that plugin's record
+	if a := newTxnAnalyzer(p, r); a != nil {
+		sub := newResult("C08-sub")
+		n := 0
+		for _, ts := range findTxnSites(p) {
+			if relPath(ts.fn.Pkg.PkgPath) != "resource/cobalt" || ts.kind != "PCR" || ts.fn.Obj == nil {
+				continue
+			}
+			switch ts.fn.Obj.Name() {
+			case "SetNodeResourceUsage", "SetNodeResourceCapacity", "SetNodeResourceInfo":
+				n++
+				a.checkT5(sub, ts, p.pos(ts.call))
+			}
+		}
+		for _, o := range sub.Obligs {
+			switch o.Status {
+			case stOK:
+				r.ok("RBP", o.Construct, o.Pos, o.Detail)
+			case stViolation:
+				r.bad("RBP", o.Construct, o.Pos, o.Detail+": the rollback of a partly failed update rewrites plugins that never changed anything (with an empty \"before\" value), so rolling back does not restore the usage — it destroys it")
+			default:
+				r.undecided("RBP", o.Construct, o.Pos, o.Detail)
+			}
+		}
+		r.min("RBP", 2)
+		if n == 0 {
+			r.undecided("RBP", "resource/cobalt usage/capacity PCR sites", "", "none found")
+		}
+	}
 
 	// ---- RB
 	isSet := func(f *types.Func) bool { return strings.HasSuffix(objName(f), ".SetNodeResourceUsage") }
@@ -491,6 +522,55 @@ func methodCallOn(fn *FuncNode, st ast.Stmt) (string, types.Object) {
 
 // checkMirror: MIR rule (used by C08 and C10)
 func checkMirror(p *Prog, r *Result) {
+	// map types: Add/Sub walk the OPERAND and touch every one of its keys (walking the receiver, or skipping keys the receiver
+	// lacks, loses the entries a delta needs: new − origin must carry −x for a core only the origin holds)
+	for _, tn := range []string{"CPUMap", "NUMAMemory"} {
+		for _, mn := range []string{"Add", "Sub"} {
+			fn := p.Fn(cpumemTypes + "." + tn + "." + mn)
+			key := fmt.Sprintf("%s.%s / walks every key of its operand", tn, mn)
+			if fn == nil {
+				r.undecided("MIR", key, "", "not found")
+				continue
+			}
+			rv, op := recvObj(fn), fn.paramObj(0)
+			why := "no range over the operand found"
+			fn.inspectBody(func(n ast.Node) bool {
+				rs, ok := n.(*ast.RangeStmt)
+				if !ok {
+					return true
+				}
+				switch {
+				case fn.objOf(rs.X) == rv:
+					why = "the loop walks the receiver, not the operand: keys that only the operand has are never applied"
+				case fn.objOf(rs.X) == op:
+					why = ""
+					// the update indexes the receiver with the range key
+					okUpd := false
+					for _, st := range rs.Body.List {
+						if as, ok := st.(*ast.AssignStmt); ok && len(as.Lhs) == 1 {
+							if ix, ok := unparen(as.Lhs[0]).(*ast.IndexExpr); ok && fn.objOf(ix.X) == rv && rs.Key != nil && fn.objOf(ix.Index) == fn.objOf(rs.Key) {
+								okUpd = true
+							}
+						}
+					}
+					if !okUpd {
+						why = "the loop over the operand does not update receiver[key] as a direct statement of its body"
+					}
+					ast.Inspect(rs.Body, func(x ast.Node) bool {
+						switch y := x.(type) {
+						case *ast.BranchStmt:
+							why = "the loop over the operand can skip a key (`" + y.Tok.String() + "` at " + p.pos(y) + "): for that key nothing is added or subtracted, so a delta lacks the entry and the usage keeps what was given up"
+						case *ast.ReturnStmt:
+							why = "the loop over the operand can stop early (return at " + p.pos(y) + ")"
+						}
+						return true
+					})
+				}
+				return true
+			})
+			r.check2(why, "MIR", key, p.pos(fn.Decl), "for k, v := range operand { receiver[k] ±= v }")
+		}
+	}
 	// ---- MIR
 	typeNames := make([]string, 0, len(usageFields))
 	for tn := range usageFields {
